@@ -73,6 +73,8 @@ def judge (calls : List Call) (final : List String) (check : String) : List (Str
       if a.ret < b.inv ∧ a.hi > b.lo ∧ b.lo < b.hi ∧ a.lo < a.hi then
         out := out ++ [("PublishOrder", s!"[{a.lo},{a.hi}) returned before [{b.lo},{b.hi}) was invoked")]
   let maxNext := pubs.foldl (fun m p => if p.hi > m then p.hi else m) 0
+  -- a batch becomes visible as a whole: the log never ends in the middle of one
+  let boundary := fun (n : Int) => n == 0 || pubs.any (fun p => p.hi == n)
   -- NextOffset is at least this when a call is invoked at `t` / at most this when it returns at `t`
   let ackNextBefore := fun (t : Int) => pubs.foldl (fun m p => if p.ret < t ∧ p.hi > m then p.hi else m) 0
   let invNextBefore := fun (t : Int) => pubs.foldl (fun m p => if p.inv < t ∧ p.hi > m then p.hi else m) 0
@@ -125,6 +127,12 @@ def judge (calls : List Call) (final : List String) (check : String) : List (Str
       match c.op, (parseOutWith pCons c.impl) with
       | [_, o, _mx], some (.ok (nxt, ms)) =>
         let off := o.toInt?.getD 0
+        let mx := (c.op[2]? >>= String.toInt?).getD 0
+        -- fewer messages than asked for = the end of a segment or of the log, both of which lie between batches
+        -- (or in front of messages of that batch that a Delete invoked before the answer has removed)
+        let nextB := pubs.foldl (fun (b : Int) p => if p.hi ≥ nxt ∧ (p.hi < b ∨ b < nxt) then p.hi else b) (-1)
+        let restGone := nextB ≥ nxt ∧ ((List.range (nextB - nxt).toNat).all (fun k => deletedBy (nxt + k) c.ret))
+        if (off == -1 ∨ (ms.length : Int) < mx) ∧ !boundary nxt ∧ !restGone then out := out ++ [("BatchAtomic", desc c)]
         if off == -1 then
           if nxt < ackNextBefore c.inv ∨ nxt > invNextBefore c.ret ∨ !ms.isEmpty then out := out ++ [("NewestStale", desc c)]
         else
@@ -160,6 +168,7 @@ def judge (calls : List Call) (final : List String) (check : String) : List (Str
       | ["ok", n] =>
         let v := n.toInt?.getD (-1)
         if v < ackNextBefore c.inv ∨ v > invNextBefore c.ret then out := out ++ [("NextOffsetStale", desc c)]
+        if !boundary v then out := out ++ [("BatchAtomic", desc c)]
       | _ => out := out ++ [("SpuriousFailure", desc c)]
     else if kind == "gc" ∨ kind == "stat" then
       if !implOk c then out := out ++ [("SpuriousFailure", desc c)]
